@@ -121,12 +121,15 @@ union common_hash_ctx {
     sha512_context sha512;
 };
 
-static void crypto_HMAC(const struct hash_alg *alg,
-                        const uint8_t *key,
-                        size_t key_len,
-                        const uint8_t *text,
-                        size_t len,
-                        uint8_t *digest)
+/* HMAC of the concatenation text || text2 */
+static void crypto_HMAC_parts(const struct hash_alg *alg,
+                              const uint8_t *key,
+                              size_t key_len,
+                              const uint8_t *text,
+                              size_t len,
+                              const uint8_t *text2,
+                              size_t len2,
+                              uint8_t *digest)
 {
     uint8_t key_pad[HMAC_BLOCK_SIZE_MAX];
     uint8_t key_ipad[HMAC_BLOCK_SIZE_MAX];
@@ -155,12 +158,24 @@ static void crypto_HMAC(const struct hash_alg *alg,
     alg->init((void *)&ctx);
     alg->update((void *)&ctx, key_ipad, blocksize);
     alg->update((void *)&ctx, text, len);
+    if (len2 > 0)
+        alg->update((void *)&ctx, text2, len2);
     alg->final((void *)&ctx, sha_digest);
 
     alg->init((void *)&ctx);
     alg->update((void *)&ctx, key_opad, blocksize);
     alg->update((void *)&ctx, sha_digest, alg->digest_size);
     alg->final((void *)&ctx, digest);
+}
+
+static void crypto_HMAC(const struct hash_alg *alg,
+                        const uint8_t *key,
+                        size_t key_len,
+                        const uint8_t *text,
+                        size_t len,
+                        uint8_t *digest)
+{
+    crypto_HMAC_parts(alg, key, key_len, text, len, NULL, 0, digest);
 }
 
 static void SCRAM_Hi(const struct hash_alg *alg,
@@ -177,19 +192,17 @@ static void SCRAM_Hi(const struct hash_alg *alg,
 
     static uint8_t int1[] = {0x0, 0x0, 0x0, 0x1};
 
-    /* assume salt + INT(1) isn't longer than sizeof(tmp) */
-    assert(salt_len <= sizeof(tmp) - sizeof(int1));
+    /* tmp only ever holds a digest */
+    assert(alg->digest_size <= sizeof(tmp));
 
     memset(digest, 0, alg->digest_size);
     if (i == 0) {
         return;
     }
 
-    memcpy(tmp, salt, salt_len);
-    memcpy(&tmp[salt_len], int1, sizeof(int1));
-
-    /* 'text' for Hi is a 'key' for HMAC */
-    crypto_HMAC(alg, text, len, tmp, salt_len + sizeof(int1), digest);
+    /* 'text' for Hi is a 'key' for HMAC; U1 = HMAC(text, salt || INT(1)) */
+    crypto_HMAC_parts(alg, text, len, salt, salt_len, int1, sizeof(int1),
+                      digest);
     memcpy(tmp, digest, alg->digest_size);
 
     for (j = 1; j < i; j++) {
